@@ -144,6 +144,49 @@ def run(ck):
                    ok_detail="from the failed() edge the loop head is reachable only through write_rej_to or through %d NotFound edge(s) of the "
                              "reject's own creation" % len(nf_edges))
 
+    # ---- R7: what is rendered for this entry goes to this entry's reject file, and nothing else does ------------------------------
+    # The writer handed to write_rej_to is (a buffer around) the file created for this entry, or an in-memory buffer that is written to
+    # that file and is empty whenever rendering starts (created inside the iteration, or cleared on every path to the next rendering).
+    create_bbs = {bb for bb, t in creates}
+    for wb in sorted(wr_blocks):
+        t = rej.blocks[wb]["term"]
+        wty = t["argtys"][1] if len(t["argtys"]) > 1 else ""
+        tr = df.operand_trace(rej, t["args"][1]) if len(t["args"]) > 1 else set()
+        srcs = set()
+        for l in tr:
+            for dd in df.defs_of(rej).all(l):
+                if dd[0] in ("call", "pcall"):
+                    srcs.add(dd[1])
+        if srcs & create_bbs:
+            ck.ok("C13-R7", "rejects are rendered into the file created for this entry", "writer derives from the creation at %s" %
+                  sorted(rej.where(rej.blocks[b]["term"]) for b in srcs & create_bbs), rej.where(t))
+            continue
+        membuf = any(x in wty for x in ("alloc::vec::Vec<u8>", "std::io::Cursor<", "alloc::string::String"))
+        if not ck.require(membuf, "C13-R7", "rejects are rendered into the file created for this entry",
+                          "write_rej_to is given a %s that does not derive from the reject file created in this iteration" % wty, rej.where(t)):
+            continue
+        buf = df.operand_expr(rej, t["args"][1])
+        same = lambda op: df.operand_expr(rej, op) == buf
+        loops = cfg.loops(rej)
+        body = set().union(*loops.values()) if loops else set()
+        fresh = [b2 for b2, t2 in rej.calls() if b2 in body and (callee_of(t2).get("rpath") or "").split("::")[-1] in ("new", "with_capacity", "default")
+                 and isinstance(buf, tuple) and buf[0] == "local" and t2["dest"]["l"] == buf[1] and "p" not in t2["dest"]]
+        clears = {b2 for b2, t2 in rej.calls() if (callee_of(t2).get("rpath") or "").endswith(("Vec::<T, A>::clear", "String::clear")) and t2["args"] and same(t2["args"][0])}
+        flushed = [b2 for b2, t2 in rej.calls() if (callee_of(t2).get("rpath") or "").endswith("write_all") and len(t2["args"]) == 2 and
+                   df.mentions(df.operand_expr(rej, t2["args"][1]), lambda x: x == buf) and
+                   {dd[1] for l in df.operand_trace(rej, t2["args"][0]) for dd in df.defs_of(rej).all(l) if dd[0] in ("call", "pcall")} & create_bbs]
+        ck.require(bool(flushed), "C13-R7", "the rendered rejects are written to the file created for this entry",
+                   "no write_all of the buffer to the created reject file", rej.where(t))
+        if fresh:
+            ck.ok("C13-R7", "the reject buffer is empty when rendering starts", "created inside the iteration", rej.where(t))
+        else:
+            # a path from this rendering to the next one (any rendering into the same buffer) that avoids every clear()
+            again = cfg.reachable(rej, [sx for sx in rej.succs(wb) if not rej.blocks[sx]["cleanup"]], blocked=clears)
+            leak = sorted(b2 for b2 in wr_blocks if b2 in again)
+            ck.require(not leak, "C13-R7", "the reject buffer is empty when rendering starts",
+                       "the buffer outlives the iteration and the next rendering can be reached without clearing it (e.g. through a `continue`): "
+                       "the next reject file would start with the rejects of another file", rej.where(t),
+                       ok_detail="cleared on every path to the next rendering")
     # ---- R2 ------------------------------------------------------------------------------------------
     hw = [(bb, t) for bb, t in wr.calls() if (callee_of(t).get("rpath") or "").endswith("UnifiedPatchHunkWriter>::write_to")]
     ck.floor("C13-R2", "hunk writer calls in write_rej_to", len(hw), 1)
